@@ -60,12 +60,13 @@ class Obligation:
         return f"{self.func}:{self.kind}:{self.clause}"
 
 
-def new_solver(timeout_ms):
+def new_solver(timeout_ms, relevancy=2):
     s = z3.Solver()
     s.set("auto_config", False)
     s.set("mbqi", False)
     s.set("timeout", timeout_ms)
     s.set("random_seed", 7)
+    s.set("relevancy", relevancy)
     for a in all_axioms().values():
         s.add(a)
     return s
@@ -78,25 +79,40 @@ def quick_unsat(hyps, timeout_ms=1500):
     return s.check() == z3.unsat
 
 
-def discharge(hyps, goals, timeout_ms):
-    """Discharge several goals under common hypotheses. Returns list of (status, seconds, reason)."""
-    s = new_solver(timeout_ms)
-    s.add(hyps)
+def discharge(hyps, goals, timeout_ms, portfolio=True):
+    """Discharge several goals under common hypotheses. Returns list of (status, seconds, reason).
+    Two E-matching configurations are tried in turn (a proof found by either is a proof): z3's default relevancy propagation, and - only when
+    that saturates without a proof - relevancy filtering off (every ground term may trigger an instantiation: robust against the case-split
+    order, which had made one verdict depend on an unrelated axiom being present)."""
+    solvers = {}
+
+    def solver(rel):
+        if rel not in solvers:
+            solvers[rel] = new_solver(timeout_ms, rel)
+            solvers[rel].add(hyps)
+        return solvers[rel]
     out = []
     for g in goals:
-        s.push()
-        s.add(z3.Not(g))
-        t = time.time()
-        r = s.check()
-        dt = time.time() - t
-        why = s.reason_unknown() if r == z3.unknown else ""
-        s.pop()
+        total, last = 0.0, None
+        for rel in ((2, 0) if portfolio else (2,)):
+            s = solver(rel)
+            s.push()
+            s.add(z3.Not(g))
+            t = time.time()
+            r = s.check()
+            total += time.time() - t
+            why = s.reason_unknown() if r == z3.unknown else ""
+            s.pop()
+            last = (r, why)
+            if r != z3.unknown or "timeout" in why or "canceled" in why:
+                break
+        r, why = last
         if r == z3.unsat:
-            out.append(("discharged", dt, ""))
+            out.append(("discharged", total, ""))
         elif r == z3.sat:
-            out.append(("failed", dt, "sat"))
+            out.append(("failed", total, "sat"))
         elif "timeout" in why or "canceled" in why:
-            out.append(("timeout", dt, why))
+            out.append(("timeout", total, why))
         else:
-            out.append(("failed", dt, why))   # E-matching saturated without a proof
+            out.append(("failed", total, why))   # E-matching saturated without a proof in both configurations
     return out
